@@ -63,6 +63,12 @@ func main() {
 			bm, stage, err := basmdump.Assemble(c.Text, basmdump.Options{DisableDynamic: true})
 			report(i, "gen:"+c.Kind, c.MustFail, "S "+strings.ReplaceAll(strings.TrimRight(c.Text, "\n"), "\n", "\\n"), bm, stage, err)
 		}
+		// sources outside the C05 model: ROM+RAM code (hy / vn), ROM / RAM data sections around 2^k cells
+		for i := 0; i < n/3+1; i++ {
+			c := basmdump.GenExtCase(r)
+			bm, stage, err := basmdump.Assemble(c.Text, basmdump.Options{DisableDynamic: true})
+			report(n+i, "gen:"+c.Kind, c.MustFail, "S "+strings.ReplaceAll(strings.TrimRight(c.Text, "\n"), "\n", "\\n"), bm, stage, err)
+		}
 	case "lib":
 		root := os.Args[2]
 		dyn := os.Args[3] == "dyn"
